@@ -49,6 +49,8 @@ fn kind(k: &str) -> (String, Vec<u16>, bool) {
         "postalllate" => (format!("POST /readall HTTP/1.1\r\n{h}content-length: 40\r\n"), vec![200], false),
         "postalllong" => (format!("POST /readall HTTP/1.1\r\n{h}content-length: 3000\r\n"), vec![200], false),
         "postlate" => (format!("POST /hello HTTP/1.1\r\n{h}content-length: 35\r\n"), vec![200], false),
+        // the same body in the same write as the head: it is in the server's buffer when the head is parsed
+        "postwith" => (format!("POST /hello HTTP/1.1\r\n{h}content-length: 35\r\n"), vec![200], false),
         // the handler reads only the first 10 bytes of a 45-byte body; the other 35 look like a request
         "postpartial" => (format!("POST /read10 HTTP/1.1\r\n{h}content-length: 45\r\n"), vec![200], false),
         // a body far larger than what the handler reads (10 bytes of 300 000): the client is still writing when the response is ready
@@ -56,7 +58,7 @@ fn kind(k: &str) -> (String, Vec<u16>, bool) {
         _ => unreachable!("{k}"),
     }
 }
-const KINDS: [&str; 41] = ["postall", "postalllate", "postalllong", "stream", "streamhead", "streamrange", "streambeyond", "streampast", "piped", "pipedhead", "pipedrange", "headbig", "bigbr", "headbigbr", "bigzstd", "headbigzstd", "postpartial", "posthuge", "postlate", "get", "head", "getgz", "headgz", "getbr", "uncached", "empty", "missing", "headmissing", "range", "headrange", "range416", "ims", "unsafe", "headunsafe", "notacceptable", "png406", "post", "options", "cors", "nocontent", "big"];
+const KINDS: [&str; 42] = ["postwith", "postall", "postalllate", "postalllong", "stream", "streamhead", "streamrange", "streambeyond", "streampast", "piped", "pipedhead", "pipedrange", "headbig", "bigbr", "headbigbr", "bigzstd", "headbigzstd", "postpartial", "posthuge", "postlate", "get", "head", "getgz", "headgz", "getbr", "uncached", "empty", "missing", "headmissing", "range", "headrange", "range416", "ims", "unsafe", "headunsafe", "notacceptable", "png406", "post", "options", "cors", "nocontent", "big"];
 
 fn build(limited: bool) -> std::sync::Arc<HostCollection> {
     let mut ext = Extensions::new();
@@ -157,6 +159,8 @@ impl Group for Framing {
             // bodies read to their end by the handler, each followed by another request
             "c08.conn 0 [postall,get,postalllate,get,postalllong,head,postalllate,postall,get]".to_owned(),
             "c08.conn 0 [stream,streamhead,get,streamrange,streambeyond,streampast,streamhead,stream]".to_owned(),
+            // a body nobody reads that came with the head, then more requests
+            "c08.conn 0 [postwith,get,postwith,head,postwith,postwith,get]".to_owned(),
         ];
         // requests arriving in two TCP segments: the blank line on its own, the last LF on its own, cuts elsewhere
         v.push("c08.conn 0 [get,get/2,head/1,get/4,get/3,getgz/2,head/2,get/-1,get/-9,post/2,get]".to_owned());
@@ -197,6 +201,9 @@ impl Group for Framing {
             let (raw, expect, head) = kind(k);
             let mut bytes = raw.into_bytes();
             bytes.extend_from_slice(b"\r\n");
+            if k == "postwith" {
+                bytes.extend_from_slice(b"GET /smuggled HTTP/1.1\r\nhost: x\r\n\r\n");
+            }
             let sent = match split {
                 None => cl.send(&bytes),
                 Some(n) => {
@@ -242,7 +249,7 @@ impl Group for Framing {
             mine.push(format!("{}:{}:{cl_count}", r.status, r.body.len()));
             // after an unread late body the next response must be to OUR request, never to the smuggled one
             // what the handler left of a body is read and discarded by the server (up to 4 MiB): the connection stays in step
-            if i > 0 && ["postlate", "postpartial", "posthuge"].iter().any(|b| kinds[i - 1].split('/').next() == Some(*b)) && r.status == 404 && !expect.contains(&404) { problems.push(format!("request {i} ({k}): the unread request body was parsed as a request (404 for /smuggled)")); }
+            if i > 0 && ["postlate", "postpartial", "posthuge", "postwith"].iter().any(|b| kinds[i - 1].split('/').next() == Some(*b)) && r.status == 404 && !expect.contains(&404) { problems.push(format!("request {i} ({k}): the unread request body was parsed as a request (404 for /smuggled)")); }
             let ok_status = expect.contains(&r.status) || (limited && r.status == 429);
             if !ok_status { problems.push(format!("request {i} ({k}): status {} not in {expect:?}", r.status)); }
             let cl_val: Option<usize> = r.header("content-length").and_then(|v| std::str::from_utf8(v).ok()).and_then(|s| s.parse().ok());
